@@ -5,17 +5,22 @@ Written from /repo: src/fault/fiber/{thread,fiber_base,thread_local_proxy,schedu
 include/yaclib/fault/detail/fiber/thread_local_proxy.hpp, include/yaclib_std/detail/this_thread.hpp
 (scheduler abstraction and conventions as in Model/FiberSync.lean).
 
-Three thread-local pointers are modelled, as a client would declare them:
-  `p`, `q` : `YACLIB_THREAD_LOCAL_PTR(int)`, `l` : `YACLIB_THREAD_LOCAL_PTR(long)` — indices 0, 1, 2 of the one global counter.
+Thread-local pointers: any number of variables `YACLIB_THREAD_LOCAL_PTR(T) x{initialiser};`, numbered by the one global
+index counter (`NextFreeIndex()`), of any pointee types.  The workload gives the initialiser of every variable
+(`none` = declared without one / with nullptr); the constructor stores a non-null initialiser in the process-wide
+defaults map (`SetDefault`), which nothing else writes.  A pointer value is `Option Nat` (`none` = nullptr); a fiber's
+slot is `Option (Option Nat)`: `none` = the fiber has no entry for the variable (`_tls.find(i) == _tls.end()`), `some none` =
+it stored nullptr — the difference matters exactly when the initialiser is not null.
+
 History: until the fix commit 33c5ab3 the code had
   D13  the index counter was a static member of the class *template* (one per pointee type) while the per-fiber map and
-       the defaults map are keyed by the index alone: `p` and `l` shared slot 0 — scenario `tls f0=GL,P1,GL f1=GL,G`
-       (`f0 tls_getl -> -1; tls_set 1; tls_getl -> 1`, every schedule);
+       the defaults map are keyed by the index alone: an `int*` and a `long*` variable shared slot 0 — scenario
+       `tls f0=GL,P1,GL f1=GL,G` (`f0 tls_getl -> -1; tls_set 1; tls_getl -> 1`, every schedule);
   D14  `ThreadLocalPtrProxy::operator=(const ThreadLocalPtrProxy&)` (`q = p`) called `SetDefault`, i.e. wrote the
        process-wide default of `q`: other fibers saw the value, a fiber that had assigned `q` itself did not see its own
        copy — scenarios `tls f0=P1,C,GQ,E,GQ f1=GQ,P2,E,GQ` and `tls f0=PQ3,GQ,P1,C,GQ f1=GQ,PQ2,GQ` (every schedule),
-and this model contained them (see git history and notes/C18.md).  It now describes the repaired code:
-`Set(GetImpl(other._i), _i)` in the copy assignment, `l` has its own slot (never written by the modelled operations).
+and this model contained them (two variables + an aliasing third; see git history and notes/C18.md).  It now describes
+the repaired code: `Set(GetImpl(other._i), _i)` in the copy assignment, one slot per variable.
 -/
 import YaclibModel.Model.FiberSync
 
@@ -28,45 +33,44 @@ inductive Pc where
   | sleeping (dl : Nat)
   deriving DecidableEq, Repr
 
+abbrev Var := Nat
+abbrev Ptr := Option Nat       -- `none` = nullptr
+
 structure State where
   pc : Fid → Pc
-  fin : Fid → Bool             -- `FiberBase::_state == Completed` (the thread function returned, `Exit()` ran)
-  slot0 : Fid → Option Nat     -- `_tls[0]` of each fiber (`none` = no entry or nullptr): `p`
-  slot1 : Fid → Option Nat     -- `_tls[1]`: `q`
-  def0 : Option Nat            -- `sDefaults[0]`, `sDefaults[1]` (`none` = nullptr)
-  def1 : Option Nat
+  fin : Fid → Bool                      -- `FiberBase::_state == Completed` (the thread function returned, `Exit()` ran)
+  slot : Var → Fid → Option Ptr         -- `FiberBase::_tls` of each fiber
+  dflt : Var → Ptr                      -- `sDefaults` (thread_local_proxy.cpp), written by the constructors only
   now : Nat
   -- ghost
-  lastQ : Fid → Option (Option Nat)   -- what this fiber itself last assigned to `q` (`none` = never assigned)
+  last : Var → Fid → Option Ptr         -- what this fiber itself last assigned to the variable (`none` = never)
 
-def init (n : Nat) : State :=
-  { pc := fun g => if g < n then .idle else .done, fin := fun _ => false, slot0 := fun _ => none, slot1 := fun _ => none,
-    def0 := none, def1 := none, now := 0, lastQ := fun _ => none }
+/-- `inits v` = the initialiser variable `v` was declared with -/
+def init (inits : Var → Ptr) (n : Nat) : State :=
+  { pc := fun g => if g < n then .idle else .done, fin := fun _ => false, slot := fun _ _ => none, dflt := inits, now := 0,
+    last := fun _ _ => none }
 
-/-- `FiberBase::GetTLS(i, defaults)`: own entry, else the default -/
-def read0 (s : State) (f : Fid) : Option Nat := match s.slot0 f with | some v => some v | none => s.def0
-def read1 (s : State) (f : Fid) : Option Nat := match s.slot1 f with | some v => some v | none => s.def1
+/-- `FiberBase::GetTLS(i, defaults)`: own entry (whatever it holds), else the default -/
+def read (s : State) (v : Var) (f : Fid) : Ptr := match s.slot v f with | some x => x | none => s.dflt v
+
+/-- what `thread_local T* x = initialiser;` semantics say the fiber reads -/
+def specRead (inits : Var → Ptr) (s : State) (v : Var) (f : Fid) : Ptr :=
+  match s.last v f with | some x => x | none => inits v
 
 inductive Label where
   | joinStart (f k : Fid)                 -- `f E call join k`
   | joinRet (f k : Fid)                   -- `f E ret join k`
   | work (f : Fid)                        -- `f E work`
   | finish (f : Fid)                      -- `f E done`
-  | setP (f : Fid) (v : Nat)              -- `p = &slot[v]`
-  | getP (f : Fid) (r : Option Nat)       -- `p.Get()`
-  | setQ (f : Fid) (v : Nat)              -- `q = &slot[v]`
-  | copyQP (f : Fid)                      -- `q = p`
-  | getQ (f : Fid) (r : Option Nat)
-  | getL (f : Fid) (r : Option Nat)       -- `l.Get()` (a pointer of another type)
+  | set (f : Fid) (v : Var) (x : Ptr)     -- `x_v = ptr` (`operator=(Type*)`: `Set(value, _i)` → `SetTLS`)
+  | get (f : Fid) (v : Var) (r : Ptr)     -- `x_v.Get()`
+  | copy (f : Fid) (dst src : Var)        -- `x_dst = x_src` (`Set(GetImpl(other._i), _i)`)
   | sleepStart (f : Fid) (t d : Nat) | sleepWake (f : Fid) (t : Nat)
   deriving DecidableEq, Repr
 
-/-- `q = p`: `Set(GetImpl(other._i), _i)` — this fiber's slot of `q` -/
-def doCopy (s : State) (f : Fid) : State :=
-  { s with slot1 := upd s.slot1 f (read0 s f), lastQ := upd s.lastQ f (some (read0 s f)) }
-
-/-- what `l.Get()` returns: its own slot (index 2), which no modelled operation writes -/
-def readL (_s : State) (_f : Fid) : Option Nat := none
+/-- `FiberBase::SetTLS(i, value)`: `_tls[i] = value` — also for a null value -/
+def doSet (s : State) (f : Fid) (v : Var) (x : Ptr) : State :=
+  { s with slot := upd s.slot v (upd (s.slot v) f (some x)), last := upd s.last v (upd (s.last v) f (some x)) }
 
 inductive Step : State → Label → State → Prop where
   | joinStart (s : State) (f k : Fid) (h : s.pc f = .idle) : Step s (.joinStart f k) { s with pc := upd s.pc f (.joining k) }
@@ -77,36 +81,27 @@ inductive Step : State → Label → State → Prop where
   /-- the thread function returns: `FiberBase::Exit` (`_state = Completed`, schedules the joiner) -/
   | finish (s : State) (f : Fid) (h : s.pc f = .idle) :
       Step s (.finish f) { s with pc := upd s.pc f .done, fin := upd s.fin f true }
-  | setP (s : State) (f : Fid) (v : Nat) (h : s.pc f = .idle) :
-      Step s (.setP f v) { s with slot0 := upd s.slot0 f (some v) }
-  | getP (s : State) (f : Fid) (h : s.pc f = .idle) : Step s (.getP f (read0 s f)) s
-  | setQ (s : State) (f : Fid) (v : Nat) (h : s.pc f = .idle) :
-      Step s (.setQ f v) { s with slot1 := upd s.slot1 f (some v), lastQ := upd s.lastQ f (some (some v)) }
-  | copyQP (s : State) (f : Fid) (h : s.pc f = .idle) : Step s (.copyQP f) (doCopy s f)
-  | getQ (s : State) (f : Fid) (h : s.pc f = .idle) : Step s (.getQ f (read1 s f)) s
-  | getL (s : State) (f : Fid) (h : s.pc f = .idle) : Step s (.getL f (readL s f)) s
+  | set (s : State) (f : Fid) (v : Var) (x : Ptr) (h : s.pc f = .idle) : Step s (.set f v x) (doSet s f v x)
+  | get (s : State) (f : Fid) (v : Var) (h : s.pc f = .idle) : Step s (.get f v (read s v f)) s
+  | copy (s : State) (f : Fid) (dst src : Var) (h : s.pc f = .idle) :
+      Step s (.copy f dst src) (doSet s f dst (read s src f))
   | sleepStart (s : State) (f : Fid) (t d : Nat) (h : s.pc f = .idle) (ht : s.now ≤ t) :
       Step s (.sleepStart f t d) { s with pc := upd s.pc f (.sleeping (t + d)), now := t }
   | sleepWake (s : State) (f : Fid) (t dl : Nat) (h : s.pc f = .sleeping dl) (hd : dl ≤ t) (ht : s.now ≤ t) :
       Step s (.sleepWake f t) { s with pc := upd s.pc f .idle, now := t }
 
-inductive Reachable (n : Nat) : State → Prop where
-  | init : Reachable n (init n)
-  | step {s l s'} : Reachable n s → Step s l s' → Reachable n s'
+inductive Reachable (inits : Var → Ptr) (n : Nat) : State → Prop where
+  | init : Reachable inits n (init inits n)
+  | step {s l s'} : Reachable inits n s → Step s l s' → Reachable inits n s'
 
 def next (s : State) : Label → Option State
   | .joinStart f k => if s.pc f = .idle then some { s with pc := upd s.pc f (.joining k) } else none
   | .joinRet f k => if s.pc f = .joining k ∧ s.fin k = true then some { s with pc := upd s.pc f .idle } else none
   | .work f => if s.pc f = .idle then some s else none
   | .finish f => if s.pc f = .idle then some { s with pc := upd s.pc f .done, fin := upd s.fin f true } else none
-  | .setP f v => if s.pc f = .idle then some { s with slot0 := upd s.slot0 f (some v) } else none
-  | .getP f r => if s.pc f = .idle ∧ r = read0 s f then some s else none
-  | .setQ f v =>
-      if s.pc f = .idle then some { s with slot1 := upd s.slot1 f (some v), lastQ := upd s.lastQ f (some (some v)) }
-      else none
-  | .copyQP f => if s.pc f = .idle then some (doCopy s f) else none
-  | .getQ f r => if s.pc f = .idle ∧ r = read1 s f then some s else none
-  | .getL f r => if s.pc f = .idle ∧ r = readL s f then some s else none
+  | .set f v x => if s.pc f = .idle then some (doSet s f v x) else none
+  | .get f v r => if s.pc f = .idle ∧ r = read s v f then some s else none
+  | .copy f dst src => if s.pc f = .idle then some (doSet s f dst (read s src f)) else none
   | .sleepStart f t d =>
       if s.pc f = .idle ∧ s.now ≤ t then some { s with pc := upd s.pc f (.sleeping (t + d)), now := t } else none
   | .sleepWake f t =>
@@ -132,29 +127,17 @@ theorem next_sound {s : State} {l : Label} {s' : State} (h : next s l = some s')
       simp only [next] at h; split at h
       · rename_i hg; cases h; exact .finish s f hg
       · cases h
-  | setP f v =>
+  | set f v x =>
       simp only [next] at h; split at h
-      · rename_i hg; cases h; exact .setP s f v hg
+      · rename_i hg; cases h; exact .set s f v x hg
       · cases h
-  | getP f r =>
+  | get f v r =>
       simp only [next] at h; split at h
-      · rename_i hg; cases h; rw [hg.2]; exact .getP s f hg.1
+      · rename_i hg; cases h; rw [hg.2]; exact .get s f v hg.1
       · cases h
-  | setQ f v =>
+  | copy f dst src =>
       simp only [next] at h; split at h
-      · rename_i hg; cases h; exact .setQ s f v hg
-      · cases h
-  | copyQP f =>
-      simp only [next] at h; split at h
-      · rename_i hg; cases h; exact .copyQP s f hg
-      · cases h
-  | getQ f r =>
-      simp only [next] at h; split at h
-      · rename_i hg; cases h; rw [hg.2]; exact .getQ s f hg.1
-      · cases h
-  | getL f r =>
-      simp only [next] at h; split at h
-      · rename_i hg; cases h; rw [hg.2]; exact .getL s f hg.1
+      · rename_i hg; cases h; exact .copy s f dst src hg
       · cases h
   | sleepStart f t d =>
       simp only [next] at h; split at h
